@@ -972,7 +972,21 @@ def rw_clospat(fi, args, spec=None):
     return out
 
 
+def rw_intovec(fi, args, spec=None):
+    """R-INTOVEC K: `for P in X {` -> `for P in X.vc_into_vec() {` : iterate the vector of the elements of a
+    (stub) set in its iteration order instead of the set itself (the stub has no IntoIterator)."""
+    toks = fi.toks
+    edits = []
+    for a in args:
+        lp = fi.loops[int(a)]
+        if lp['kind'] != 'for':
+            raise LostAnchor(f'fn {fi.item.name}: R-INTOVEC on a non-for loop')
+        edits.append((toks[lp['open'] - 1].end, toks[lp['open'] - 1].end, '.vc_into_vec()', 'R-INTOVEC'))
+    return edits
+
+
 REWRITES = {
+    'R-INTOVEC': rw_intovec,
     'R-CLOSPAT': rw_clospat,
     'R-ENUM': rw_enum,
     'R-RENAME': rw_rename,
@@ -1148,8 +1162,24 @@ def constcall_edits(sf, item):
     ]
 
 
-def emit_item(gen, sf, item, only=None, constcall=False):
+def dropauto_edits(sf, item):
+    """R-AUTOTRAIT: `dyn T + Send + Sync` -> `dyn T` (Verus rejects dyn with more than one trait; Send/Sync are
+    marker traits without methods)."""
+    toks = sf.toks
+    edits = []
+    for i in range(item.first, item.last):
+        if is_p(toks[i], '+') and toks[i + 1].kind == 'id' and toks[i + 1].text in ('Send', 'Sync'):
+            edits.append((toks[i].start, toks[i + 1].end, '', 'R-AUTOTRAIT'))
+    return edits
+
+
+def emit_item(gen, sf, item, only=None, constcall=False, dropauto=False):
     edits = strip_edits(sf, item.first, item.last) + pub_edits(sf, item)
+    if dropauto:
+        de = dropauto_edits(sf, item)
+        edits += de
+        if de:
+            gen.rewrites.append(('R-AUTOTRAIT', sf.rel, line_of(sf.src, sf.toks[item.kw].start)))
     if constcall:
         edits += constcall_edits(sf, item)
         gen.rewrites.append(('R-CONSTCALL', sf.rel, line_of(sf.src, sf.toks[item.kw].start)))
@@ -1261,7 +1291,13 @@ def generate(unit_path, canaries=True):
             only = None
             if len(w) > 5 and w[4] == 'only':
                 only = [x for x in ' '.join(w[5:]).replace(',', ' ').split()]
-            emit_item(gen, sf, sf.find_item(w[2], w[3]), only=only, constcall=(len(w) > 4 and w[4] == 'constcall'))
+            dropauto = 'dropauto' in w[4:]
+            if dropauto:
+                w = [x for x in w if x != 'dropauto']
+                only = None
+                if len(w) > 5 and w[4] == 'only':
+                    only = [x for x in ' '.join(w[5:]).replace(',', ' ').split()]
+            emit_item(gen, sf, sf.find_item(w[2], w[3]), only=only, constcall=(len(w) > 4 and w[4] == 'constcall'), dropauto=dropauto)
             i += 1
         elif w[0] == 'impl':
             sf = SrcFile.get(w[1])
